@@ -113,7 +113,8 @@ def enum_cases(tier, seed):
                     for s in range(1, N + 1):
                         yield {"seq": seq, "type": typ, "size": size, "w": w, "s": s, "word": rnd.randint(1, 6)}
                 for w in (N + 1, N + 2, N + 3):
-                    yield {"seq": seq, "type": typ, "size": size, "w": w, "s": 1, "reject": "window-too-long"}
+                    for s in (1, 2, 3, 5):
+                        yield {"seq": seq, "type": typ, "size": size, "w": w, "s": s, "reject": "window-too-long"}
 
 
 @st.composite
@@ -142,7 +143,7 @@ def hyp_case(draw, max_len):
         case.update(type=draw(st.sampled_from(["RHP", "", "WFX", "W F", "LZ", "entropy", None, 3])), w=min(N, 5), s=1, reject="unknown-type")
         return case
     if r == 1:
-        case.update(w=N + draw(st.integers(1, 3)), s=1, reject="window-too-long")
+        case.update(w=N + draw(st.integers(1, 3)), s=draw(st.one_of(st.just(1), st.integers(1, 8))), reject="window-too-long")
         return case
     case["w"] = draw(st.one_of(st.integers(1, N), st.sampled_from([1, N, min(N, 10), min(N, 5)])))
     case["s"] = draw(st.one_of(st.integers(1, N), st.sampled_from([1, 1, 2, 3])))
